@@ -10,7 +10,7 @@
    about a uniform variate and is only TESTED (harness, 6-sigma band). *)
 From Coq Require Import QArith ZArith List Permutation.
 From FL Require Import Num ListX Thresholder Thresholder_proofs.
-From FL Require Tradeoff Hull Interp ThreshOpt ThreshOpt_proofs ThreshOptSrc Saddle SaddleFit.
+From FL Require Tradeoff Hull Interp ThreshOpt ThreshOpt_proofs ThreshOptSrc ThreshOptSrc_proofs Saddle SaddleFit.
 From FL Require ThresholderBridge ThresholderBridge_proofs.
 From FLGen Require Gen_thresholder Gen_threshopt Gen_egconst Gen_egweights.
 Import ListNotations.
@@ -210,6 +210,19 @@ Proof.
   repeat (destruct H as [<-|H]; [exact I|]). destruct H.
 Qed.
 Print Assumptions C10_fit_src_is_model.
+
+(* the operations _calculate_tradeoff_points generates without flip (regenerated list) are '>' only, and the
+   regenerated per-threshold point construction is the model's (premise of the monotonicity theorem below) *)
+Theorem C10_noflip_operations_are_source :
+  (forall oc, In oc GT.tp_ops_noflip -> fst oc = Tradeoff.OpGt) /\
+  (forall flip mx my nneg npos e,
+     TOS.points_at_src GT.tp_actual GT.tp_flipped GT.tp_ops_flip GT.tp_ops_noflip flip mx my nneg npos e
+     = Tradeoff.points_at flip mx my nneg npos e).
+Proof.
+  split; [intros oc H; unfold GT.tp_ops_noflip in H; repeat (destruct H as [<-|H]; [reflexivity|]); destruct H
+         | exact ThreshOptSrc_proofs.points_at_src_model].
+Qed.
+Print Assumptions C10_noflip_operations_are_source.
 
 (* the converted rule reports, at the real score s / D, the pmf the C04 / C05 theorems are about *)
 Theorem C10_fitted_pmf_is_c04_pmf : forall D (r : TO.rule) (s : Z),
